@@ -399,3 +399,54 @@ def proj_nocoalesce(log, slane="sup", clane="cmd"):
         elif k == "quiescent":
             out.append({"e": "quiescent", "drained": e["drained"], "targets_drained": True})
     return out
+
+
+# ----------------------------------------------------------------------------- C05 projection
+
+P_VALS = ["val", "val2", "vstore"]
+P_MAPS = ["map", "omap", "mstore"]
+T_VALS = ["tval"]
+T_MAPS = ["tmap"]
+
+
+def proj_persist(log, keys=(1, 2, 3)):
+    """events of Trace_Persistence.tla"""
+    out = [{"e": "reset"}]
+    first = True
+    for e in log:
+        k = e["e"]
+        if k == "store":
+            item, op = e["item"], e["op"]
+            if op == "put":
+                v = parse_int(e.get("body"))
+                out.append({"e": "sput", "item": item, "v": v} if v is not None else {"e": "sbad", "item": item})
+            elif op == "del":
+                out.append({"e": "sdel", "item": item})
+            elif op == "upd":
+                kk, v = parse_int(e.get("key")), parse_int(e.get("body"))
+                out.append({"e": "supd", "item": item, "k": kk, "v": v} if kk is not None and v is not None else {"e": "sbad", "item": item})
+            elif op == "rem":
+                kk = parse_int(e.get("key"))
+                out.append({"e": "srem", "item": item, "k": kk} if kk is not None else {"e": "sbad", "item": item})
+            elif op == "clr":
+                out.append({"e": "sclr", "item": item})
+        elif k == "frame" and e["kind"] == "event":
+            if e["lane"] in ALL_VLANES:
+                v = parse_int(e.get("body"))
+                out.append({"e": "vframe", "lane": e["lane"], "v": v if v is not None else -999})
+            elif e["lane"] in ALL_MLANES:
+                op = parse_map_op(e.get("body"))
+                if op is None:
+                    out.append({"e": "mframe", "lane": e["lane"], "m": "bad", "k": -1, "v": -1})
+                else:
+                    out.append({"e": "mframe", "lane": e["lane"], "m": op["op"], "k": op.get("k", -1), "v": op.get("v", -1)})
+        elif k == "start":
+            vals = {x: e.get(x, 0) for x in P_VALS + T_VALS}
+            maps = {}
+            for x in P_MAPS + T_MAPS:
+                d = dict((kk, vv) for kk, vv in e.get(x, []))
+                extra = [kk for kk in d if kk not in keys]
+                maps[x] = [d.get(kk, -1) for kk in keys] if not extra else [-777 for _ in keys]
+            out.append({"e": "start", "first": first, "vals": vals, "maps": maps})
+            first = False
+    return out
